@@ -840,14 +840,16 @@ CORE_THMS = {"module_reduction": ["moduleReduction_eq"], "permute": ["permute_eq
              "finalize128": ["out128_eq", "finalize128_shape"], "finalize256": ["out256_eq", "finalize256_shape"],
              "data_to_lanes": ["dataToLanes_eq"], "remainder": [f"remainder{n}_eq" for n in range(33)],
              "update_remainder": [f"updateRemainder{n}_eq" for n in range(1, 32)],
-             "unordered_load3": [f"unorderedLoad3_{n}_eq" for n in (0, 1, 2, 3, 5, 6, 7)]}
+             "unordered_load3": [f"unorderedLoad3_{n}_eq" for n in (0, 1, 2, 3, 5, 6, 7)],
+             "checkpoint": [f"checkpoint{n}_eq" for n in range(33)]}
 
 
-def core_translation(res, tier, seed, workdir, stats):
+def core_translation(res, tier, seed, workdir, stats, pid="C01", only=None):
     """second tie for the arithmetic core of C01: `coregen` (syn, symbolic execution of straight-line code) translates
     module_reduction, permute, zipper_merge_and_add, update, update_lanes, the key schedule of new, the round counts /
     output expressions of finalize64/128/256, data_to_lanes, remainder (every length 0..=32), update_remainder (every
-    pending length 1..=31, through HashPacket::len / as_slice of src/internal.rs) and unordered_load3
+    pending length 1..=31, through HashPacket::len / as_slice of src/internal.rs), checkpoint (every pending length
+    0..=32: all 164 bytes as expressions of the symbolic lanes and buffer bytes) and unordered_load3
     from the CURRENT src/portable.rs + src/internal.rs into Lean (HH/Generated/PortableCore.lean), and
     each translation is proved equal to the hand-written model for all inputs (by `rfl`: the model mirrors the source).
     Advisory by construction: a function the translator cannot handle any more is 'not translated'; a translated
@@ -875,6 +877,9 @@ def core_translation(res, tier, seed, workdir, stats):
         os.unlink(tmp)
     st = json.load(open(status_json))
     info["functions"] = st
+    if only:
+        st = {k: v for k, v in st.items() if k in only}
+        info["functions"] = st
     translated = [k for k, v in st.items() if v == "translated"]
     ok, blog = hh.lake_build(["HH.Generated.PortableCore"])
     thms = ["HH.Gen." + t for f in translated for t in CORE_THMS.get(f, [])]
@@ -889,11 +894,11 @@ def core_translation(res, tier, seed, workdir, stats):
     # translated but not (all) proved equal: the text of the core differs from the model
     errs = [l for l in blog.split("\n") if "error" in l][:6]
     info["status"] = (info.get("status", "") + " | generated theorems do not all check: " + " ".join(errs))[:900]
-    res.notes.append("the translated arithmetic core no longer equals the model by definitional unfolding: escalating the C01 search (thorough generator, Spec oracle)")
+    res.notes.append(f"the translated portable core no longer equals the model by definitional unfolding: escalating the {pid} search (thorough generator on the real code)")
     binp, _ = hh.build_runner("dev-std-base")
     if binp:
         i2 = hh.runner_info(binp)
-        st2 = check_mod().run_config(res, "C01", "thorough", seed * 4099 + 11, "dev-std-base", binp, i2, workdir, label="esc-core")
+        st2 = check_mod().run_config(res, pid, "thorough", seed * 4099 + 11, "dev-std-base", binp, i2, workdir, label="esc-core")
         stats.append(dict(st2, escalation="core translation"))
 
 
@@ -968,11 +973,20 @@ _c01_cross = mk_cross("C01", gen_cross_c01, ["s390x", "i686"])
 
 
 def special_c01(res, tier, seed, workdir, stats):
-    core_translation(res, tier, seed, workdir, stats)
+    core_translation(res, tier, seed, workdir, stats, only=[k for k in CORE_THMS if k != "checkpoint"])
     _c01_cross(res, tier, seed, workdir, stats)
+
+
+_c14_cross = mk_cross("C14", gen_cross_c14)
+
+
+def special_c14(res, tier, seed, workdir, stats):
+    # the checkpoint writer, translated from the source for every pending length, equals the model's encoding
+    core_translation(res, tier, seed, workdir, stats, pid="C14", only=["checkpoint"])
+    _c14_cross(res, tier, seed, workdir, stats)
 
 
 T.SPECIAL.update({"C02": simd_translation, "C01": special_c01, "C05": mk_cross("C05", gen_cross_c05, ["s390x", "i686"]), "C06": mk_cross("C06", gen_cross_c06),
                   "C07": special_c07, "C12": mk_cross("C12", gen_cross_c12),
-                  "C11": mk_cross("C11", gen_cross_c11, ["s390x", "i686"]), "C13": mk_cross("C13", gen_cross_c13), "C14": mk_cross("C14", gen_cross_c14)})
+                  "C11": mk_cross("C11", gen_cross_c11, ["s390x", "i686"]), "C13": mk_cross("C13", gen_cross_c13), "C14": special_c14})
 T.SPECIAL.update({"C15": special_c15, "C09": special_c09, "C03": special_c03, "C04": special_c04, "C08": special_c08, "C16": special_c16, "C17": special_c17, "C18": special_c18})
